@@ -368,9 +368,9 @@ func (s *SwapService) OnTxConfirmed(swapId string, txHex string, gotErr error) e
 		}
 	}
 
-	// todo move to eventctx
-	swap.Data.OpeningTxHex = txHex
-	done, err := swap.SendEvent(Event_OnTxConfirmed, nil)
+	// The transaction is stored through the event context, i.e. under the lock
+	// of the state machine and only if the event is accepted.
+	done, err := swap.SendEvent(Event_OnTxConfirmed, &txConfirmedContext{txHex: txHex})
 	if err == ErrEventRejected {
 		return nil
 	} else if err != nil {
@@ -379,6 +379,21 @@ func (s *SwapService) OnTxConfirmed(swapId string, txHex string, gotErr error) e
 	if done {
 		s.RemoveActiveSwap(swap.SwapId.String())
 	}
+	return nil
+}
+
+// txConfirmedContext carries the confirmed opening transaction into the swap
+// data.
+type txConfirmedContext struct {
+	txHex string
+}
+
+func (c *txConfirmedContext) ApplyToSwapData(data *SwapData) error {
+	data.OpeningTxHex = c.txHex
+	return nil
+}
+
+func (c *txConfirmedContext) Validate(data *SwapData) error {
 	return nil
 }
 
